@@ -595,15 +595,20 @@ pub fn rolling(max_l: usize) -> Vec<Program> {
     ] {
         for len in 0..=max_l {
             for window in 1..=len + 2 {
-                for driver in 0..crate::genroll::ROLL_DRIVERS {
+                let mut drivers: Vec<u8> = (0..crate::genroll::ROLL_DRIVERS).collect();
+                if matches!(backend, Backend::SimInput | Backend::Deque { .. }) {
+                    drivers.push(crate::genroll::CUSTOM_OUT);
+                    drivers.push(crate::genroll::CUSTOM2_OUT);
+                }
+                for driver in drivers {
                     if matches!(driver, 4 | 5) && !matches!(backend, Backend::Vec | Backend::Deque { .. }) {
                         continue;
                     }
-                    let two_series = matches!(driver, 2 | 3 | 5 | 10);
+                    let two_series = matches!(driver, 2 | 3 | 5 | 10 | 15);
                     let lazy_backend = matches!(backend, Backend::SimInput | Backend::Deque { .. } | Backend::ArcDeque { .. });
                     // rolling2_custom slices the second series itself: a shorter one is refused with a
                     // clean panic by the slicing (caller error), so only equal / longer ones there
-                    let deltas: &[i64] = if driver == 5 && lazy_backend {
+                    let deltas: &[i64] = if matches!(driver, 5 | 15) && lazy_backend {
                         &[0, 1]
                     } else if two_series && lazy_backend {
                         &[0, -1, -2, 1]
